@@ -88,6 +88,8 @@ func vpH_C03_repeated_members() {
 	vpReach("end")
 }
 
+func vpH_C03_degenerate() { vpC01Degenerate(1) }
+
 // every field populated at once
 func vpH_C03_all() {
 	ti := vpChoice(len(vpTypeNames))
